@@ -15,7 +15,7 @@ import re
 import struct
 import uuid
 
-from mc import bmff, core, crawl, world as W
+from mc import bmff, core, crawl, history, world as W
 
 ID = 'C10'
 LEVEL = 'model_checking'
@@ -310,7 +310,33 @@ def execute(item):
     return acc
 
 
+def history_alphabet(tier):
+    """Init-segment requests for the differential history oracle (mc/history.py)."""
+    out = []
+    now = crawl.iso(NOW)
+    files_ = [('bbb', 'bbb_v7_enc', 'm4v'), ('synmk', 'synmk_v1_enc', 'm4v'), ('synmk', 'synmk_a1_enc', 'm4a'), ('bbb', 'bbb_v7', 'm4v')]
+    drms = [None, 'all', 'playready', 'clearkey', 'playready-moov', 'clearkey-cenc', 'marlin']
+    if tier == 'quick':
+        drms = [None, 'all', 'playready', 'clearkey-cenc']
+    if tier != 'quick':
+        files_ += [('synenc', 'synenc_a1_enc', 'm4a'), ('bbb', 'bbb_a1_enc', 'm4a')]
+    for stream, fname, ext in files_:
+        for mode in ('vod', 'live'):
+            for drm in drms:
+                q = {'drm': drm} if drm else {}
+                out.append((f'{fname}|{mode}|drm={drm}', f'/dash/{mode}/{stream}/{fname}/init.{ext}' + crawl.make_query(q), now, True))
+            if fname == 'bbb_v7_enc':
+                for ver in ('1.0', '4.0'):
+                    out.append((f'{fname}|{mode}|drm=playready,version={ver}', f'/dash/{mode}/{stream}/{fname}/init.{ext}' +
+                                crawl.make_query({'drm': 'playready', 'playready__version': ver}), now, True))
+    return out
+
+
 def run(ctx):
+    # histories first: these workers only fork, so that every pair starts from a process that has served nothing
+    alpha = history_alphabet(ctx.tier)
+    ctx.merge_all(ctx.pmap(history.pair_item, [('C10', a, alpha) for a in range(len(alpha))]))
+    ctx.extra.update(history_alphabet=[a[0] for a in alpha], history_pairs=len(alpha) * (len(alpha) - 1))
     sels = selections(ctx.tier)
     items = []
     for stream, fname in files():
@@ -332,6 +358,9 @@ def run(ctx):
 
 
 def replay(record):
+    if record.get('kind') == 'history-pair':
+        a = history.run_forked(history.pair_item, ('C10', 0, [tuple(record['a']), tuple(record['b'])]))
+        return [(s, v[0]['what']) for s, v in a.viol.items()]
     w = W.World.shared()
     acc = core.Acc()
     W.set_now(NOW)
